@@ -18,19 +18,34 @@
 size_t   g_k;  /* ghost index 1 */
 size_t   g_j;  /* ghost index 2 */
 size_t   g_n;  /* ghost scalar (segmentation lemmas etc.) */
+uint8_t  g_b;  /* ghost byte tied to index g_k by a precondition equation */
+size_t   g_hk; /* ghost index, header string */
+uint8_t  g_hb; /* ghost byte tied to g_hk */
 
 /* ghost accounting for message frees (nni_msg_free stub) */
 size_t   g_msg_freed;       /* number of nni_msg_free calls */
 void    *g_msg_freed_at_j;  /* the message freed by call number g_j */
 
 /* ghost accounting for nni_free */
-size_t   g_free_calls;
+size_t   g_free_calls;      /* number of nni_free calls */
+size_t   g_alloc_ok;        /* number of successful nni_alloc/nni_zalloc calls */
+#define VP_HEAP_DELTA(a, f) (g_alloc_ok == __CPROVER_old(g_alloc_ok) + (a) && g_free_calls == __CPROVER_old(g_free_calls) + (f))
 
 /* canary: must be reachable (and therefore FAIL) in every harness */
 #define VP_CANARY() __CPROVER_assert(0, "vp_canary: harness end reachable")
 
 #define VP_POW2(x) ((x) != 0 && (((x) & ((x) - 1)) == 0))
 #define VP_MIN(a, b) ((a) < (b) ? (a) : (b))
+
+/* "p is the same pointer as before": stated with pointer_in_range_dfcc so
+ * that, when the contract REPLACES a call and p was havocked by the assigns
+ * clause, p is re-pointed at the old object (a plain == would leave CBMC's
+ * points-to set of p empty and every read through it unconstrained) */
+#define VP_SAME_PTR(p)                                                    \
+	((__CPROVER_old(p) == NULL)                                           \
+	        ? ((p) == NULL)                                               \
+	        : __CPROVER_pointer_in_range_dfcc(                            \
+	              __CPROVER_old(p), (p), __CPROVER_old(p)))
 
 /* nondet sources */
 size_t        nondet_size_t(void);
